@@ -70,6 +70,7 @@ type Contract struct {
 	Inline   bool
 	Trusted  bool // body not verified; contract assumed at call sites (reported)
 	Safety   []string // tags for which implicit safety obligations are claimed
+	Serial   []string // tags for the serial-number comparison audit
 	NoVerify bool
 	Fn       *ssa.Function
 	Decl     *ast.FuncDecl
@@ -109,6 +110,7 @@ type Program struct {
 	LoadErrs  []string
 	Preds     map[string]*Pred
 	Writers   []*WriterSpec
+	SerialAudit []string // tags of the package-wide serial-comparison audit
 	typeTags  map[string]int
 	tagTypes  map[int]types.Type
 	effects   map[*ssa.Function]*effectSet
@@ -240,7 +242,7 @@ func (p *Program) parseContractFile(fname string, f *ast.File) error {
 		}
 	}
 	// join continuation lines: a line is a continuation unless it starts with a keyword
-	kw := regexp.MustCompile(`^(func|requires|ensures|assume|modifies|tags|loop|at|inline|trusted|safety|noverify|pred|clause|writers)\b`)
+	kw := regexp.MustCompile(`^(func|requires|ensures|assume|modifies|tags|loop|at|inline|trusted|safety|serialaudit|auditserial|noverify|pred|clause|writers)\b`)
 	var joined []line
 	for _, l := range lines {
 		if kw.MatchString(l.text) || len(joined) == 0 {
@@ -262,6 +264,16 @@ func (p *Program) parseContractFile(fname string, f *ast.File) error {
 			head = head[:i]
 		}
 		bad := func(msg string) error { return fmt.Errorf("%s:%d: %s: %q", fname, l.ln, msg, l.text) }
+		if head == "auditserial" {
+			// package-level: serialaudit{C16,C01} [allow: site, site]
+			m := regexp.MustCompile(`^auditserial(\{[A-Z0-9, ]+\})?\s*(.*)$`).FindStringSubmatch(l.text)
+			for _, t := range strings.Split(strings.Trim(m[1], "{}"), ",") {
+				if t = strings.TrimSpace(t); t != "" {
+					p.SerialAudit = append(p.SerialAudit, t)
+				}
+			}
+			continue
+		}
 		if head == "writers" {
 			// writers{C13} Type.field : f1, f2, ...
 			m := regexp.MustCompile(`^writers(\{[A-Z0-9, ]+\})?\s+([\w.]+)\s*:\s*(.*)$`).FindStringSubmatch(l.text)
@@ -372,6 +384,8 @@ func (p *Program) parseContractFile(fname string, f *ast.File) error {
 			cur.Tags = append(cur.Tags, fields[1:]...)
 		case "safety":
 			cur.Safety = append(cur.Safety, fields[1:]...)
+		case "serialaudit":
+			cur.Serial = append(cur.Serial, fields[1:]...)
 		case "inline":
 			cur.Inline = true
 		case "trusted":
